@@ -546,6 +546,15 @@ def run(ctx):
                               "reproduced": last == stale, "answer_if_edit_were_reflected": fresh})
                 break
     ctx.cov["candidate_findings"] = cands
+    # once a candidate is adopted (listed in known_findings.json) its reproduction is reported through
+    # the KNOWN-FINDING channel (status open) or as a violation (any other status, i.e. it came back)
+    known_keys = {k.get("key") for k in vlib.load_known_findings() if k.get("property") == "C17"}
+    for c in cands:
+        if c["reproduced"] and c["key"] in known_keys:
+            ctx.violation("%s: an edit made after the previous load is never reflected (final sweep %s, %s would reflect it)"
+                          % (c["key"], c["impl_output"].split(" ")[-1], c["answer_if_edit_were_reflected"]),
+                          {"finding_key": c["key"], "case_line": c["case_line"], "binary": "g",
+                           "impl_output": c["impl_output"]})
     for c in cands:
         ctx.notes.append("candidate %s: %s on the C code (final sweep %s; %s would reflect the edit)" % (
             c["key"], "REPRODUCED" if c["reproduced"] else "not reproduced", c["impl_output"].split(" ")[-1],
